@@ -59,6 +59,17 @@ Theorem C14_mul_scalar_exact a d r ea eb :
 Proof. exact (pmul_scalar_exact ea eb a d r). Qed.
 Print Assumptions C14_mul_scalar_exact.
 
+(* Prefixed + scalar, scalar - Prefixed (a Decimal d; the code converts it with to_prefixed and does not rescale) *)
+Theorem C14_add_scalar_exact a d e :
+  to_prefixed d = Ok (mkP d 0) /\
+  (e <= pexp (padd_raw a (mkP d 0)) -> vat e (padd_raw a (mkP d 0)) = vat e a + at_ e d) /\
+  (e <= pexp (psub_raw (mkP d 0) a) -> vat e (psub_raw (mkP d 0) a) = at_ e d - vat e a).
+Proof.
+  split; [exact (to_prefixed_spec d)|]. rewrite <- (vat_unit e d).
+  split; [exact (padd_raw_vat e a (mkP d 0))|exact (psub_raw_vat e (mkP d 0) a)].
+Qed.
+Print Assumptions C14_add_scalar_exact.
+
 (* Prefixed * Prefix (Prefix.__rmul__):  value * 10^q *)
 Theorem C14_prefix_mul_exact p q :
   (exists r, prefix_rmul p q = Ok r) /\
